@@ -499,7 +499,7 @@ func runProperty(prop string, ps *propSpec, opt options) int {
 			params[k] = v
 		}
 		h := &symex.HarnessRun{Name: hs.Name, Entry: entry, Params: params, Unwind: 16, MaxSteps: 40_000_000, MaxDecisions: 200000,
-			QueryTimeout: 60000, IncrTimeout: 4000, Preemptions: 2, RaceCheck: hs.Threads, ContinueAfterRace: hs.Threads, WitnessMax: 12, Seed: opt.seed}
+			QueryTimeout: 150000, IncrTimeout: 4000, Preemptions: 2, RaceCheck: hs.Threads, ContinueAfterRace: hs.Threads, WitnessMax: 12, Seed: opt.seed}
 		if opt.tier == "thorough" {
 			h.QueryTimeout = 180000
 			h.IncrTimeout = 8000
